@@ -55,7 +55,7 @@ PAGES = ["SetPageSettings", "SetPageSize", "SetCustomPageSize", "SetPageOrientat
          "SetHeaderFooterDistance", "SetGutterWidth", "SetDocGrid", "ClearDocGrid", "GetPageSettings"]
 
 BODY_TEXT = ["AddParagraph", "AddHeading", "AddFormattedParagraph", "AddFormattedText", "SetParaStyle", "SetParaFormat",
-             "AddMathFormula", "AddMathOMML", "AddInlineMath", "GenerateTOC", "AutoGenerateTOC", "SetTOCStyle",
+             "AddMathFormula", "AddMathOMML", "AddInlineMath", "GenerateTOC", "AutoGenerateTOC", "SetTOCStyle", "TOCSDT",
              "AddTable", "SetCellText", "AddCellParagraph", "AddCellList", "AddNestedTable", "TableRows", "TableStyle"]
 LISTS = ["AddListItem", "AddBulletList", "AddNumberedList", "CreateMultiLevelList"]
 NOTES = ["AddFootnote", "AddFootnoteToRun", "AddEndnote"]
@@ -63,7 +63,7 @@ PROPS = ["SetTitle", "SetAuthor", "SetSubject", "SetKeywords", "SetDescription",
 HF = ["AddHeader", "AddFooter", "AddHeaderWithPageNumber", "AddFooterWithPageNumber", "AddFormattedHeader", "AddFormattedFooter"]
 PLAIN = ["AddPageBreak", "RestartNumbering", "RemoveFootnote", "SetFootnoteConfig", "UpdateTOC", "TableMerge", "RemoveParagraphAt",
          "SetDifferentFirstPage", "UpdateStatistics", "GetDocumentProperties", "RemoveStyle", "AddTemplateBits"]
-ALLOPS = (BODY_TEXT + LISTS + NOTES + PROPS + ["AddImageText"] + HF + ["AddImage", "AddCellImage"] + PLAIN +
+ALLOPS = (BODY_TEXT + LISTS + NOTES + PROPS + ["AddImageText", "SetFootnoteFormat"] + HF + ["AddImage", "AddCellImage"] + PLAIN +
           ["Save", "ToBytes", "AddStyle", "PageSet", "Reopen", "Render", "RenderText", "ConvertMd"])
 
 WIDE = dict(TextC=set(TEXTS), KindC={"default", "first", "even"}, FmtC=set(FMTS), NameC=set(NAMES),
